@@ -77,6 +77,7 @@ def program_direction_degree(rng, tier, which):
         case = {'program': p.describe(), 'D': D, 'P': P, 'x': x.data.tolist()}
         try: y = p.run(ns, U(x.data.copy()))
         except Exception: continue
+        if not numpy.all(numpy.isfinite(y.data)) or numpy.abs(y.data).max() > 1e12: continue          # overflow (expm1 of 2000): inf/nan are not comparable, not a verdict
         try:
             cg, fx, fy = T.record(p, U(x.data.copy()))
             cg.pushforward([U(x.data.copy())]); yb = T.rand_like(cg.dependentFunctionList[0].x, rng)
